@@ -69,7 +69,7 @@ type cfgGen struct {
 	bound map[string]int
 }
 
-const maxFieldLen = 4000
+const maxFieldLen = 2000
 
 func (g *cfgGen) grow(f string, n int) bool {
 	if n > maxFieldLen {
